@@ -1394,9 +1394,15 @@ class Sym:
             if s.throw is not None:
                 out.append((s, None))
                 continue
-            if r is not None and r.get('aggregate'):
+            elts = e.get('elts', [])
+            same = lambda a, b: (a or '').replace('const ', '').rstrip('& ').strip() == (b or '').replace('const ', '').rstrip('& ').strip()
+            if r is not None and r.get('aggregate') and len(vals) == 1 and same((elts[0] or {}).get('t'), t):
+                # T{x} with x itself a T: a copy of x (or, for a reference, x itself), not aggregate initialisation of the first member
+                out.append((s, vals[0]))
+            elif r is not None and r.get('aggregate'):
                 o = s.new_obj(r['name'], origin=('aggregate',))
-                names = [fl['name'] for fl in r['fields']]
+                # the elements initialise the base-class subobjects first, then the members
+                names = ['<base ' + b['name'] + '>' for b in r.get('bases', [])] + [fl['name'] for fl in r['fields']]
                 for n, v in zip(names, vals):
                     s.heap[o[1]].fields[n] = v
                 out.append((s, o))
